@@ -20,6 +20,12 @@ use std::net::SocketAddr;
 
 /// Send status request, and parse response into HashMap.
 /// This function will retry fetch on timeouts.
+/// The most players to reserve memory for before any has been seen.
+const MAXIMUM_PLAYER_PREALLOCATION: usize = 64;
+
+/// The highest player id accepted in a `<field>_<id>` key.
+const MAXIMUM_PLAYER_ID: usize = 1023;
+
 fn get_server_values(
     address: &SocketAddr,
     timeout_settings: &Option<TimeoutSettings>,
@@ -99,7 +105,9 @@ fn get_server_values_impl(socket: &mut UdpSocket) -> GDResult<HashMap<String, St
 }
 
 fn extract_players(server_vars: &mut HashMap<String, String>, players_maximum: u32) -> GDResult<Vec<Player>> {
-    let mut players_data: Vec<HashMap<String, String>> = Vec::with_capacity(players_maximum as usize);
+    // The server decides the value of players_maximum, don't reserve whatever it says
+    let mut players_data: Vec<HashMap<String, String>> =
+        Vec::with_capacity((players_maximum as usize).min(MAXIMUM_PLAYER_PREALLOCATION));
 
     server_vars.retain(|key, value| {
         let split: Vec<&str> = key.split('_').collect();
